@@ -101,7 +101,7 @@ pub fn one_scenario(rep: &Report, idx: usize, sc: &Scenario, keep: bool) -> Opti
                 for fi in 0..2 {
                     let k = frng.usize_below(o.writes.len());
                     cc::prepare_output(&b, sc);
-                    let of = cc::run_clone(&dir, &b, sc, &format!("fault{}", fi), &Faults { fault: Some(format!("0,{},errno,{}", k, if fi == 0 { libc::ENOSPC } else { [libc::EIO, libc::EAGAIN, libc::ETIMEDOUT][(k % 3) as usize] })), ..Default::default() });
+                    let of = cc::run_clone(&dir, &b, sc, &format!("fault{}", fi), &Faults { fault: Some(format!("0,{},errno,{}", k, if fi == 0 { libc::ENOSPC } else { [libc::EIO, libc::EAGAIN, libc::ETIMEDOUT, libc::EPIPE, libc::EROFS, libc::ENOMEM, libc::EBADF, libc::ECONNRESET][(k % 8) as usize] })), ..Default::default() });
                     rep.eval();
                     if of.exit == Exit::Timeout || !of.fault_fired {
                         rep.inconclusive("fault run: watchdog / fault did not fire");
